@@ -247,11 +247,27 @@ def _random_worker(payload):
         for dialect in ["ansi"] + ([dl[dsel % len(dl)]] if dl[dsel % len(dl)] != "ansi" else []):
             v = judge(stmt, ["kind:" + type(stmt).__name__], dialect, res_, ctx, "random")
             out = out or v
+        # the same statement with the aliases of every query block renamed to n1, n2, ... (sibling and nested blocks then SHARE alias names, which is
+        # legal: an alias is local to its block); judged against the reference of the rewritten IR
+        s2 = reuse_aliases(stmt)
+        if s2 is not None and out is None:
+            out = judge(s2, ["kind:" + type(stmt).__name__, "aliases_reused_per_block"], "ansi", res_, ctx, "random")
         return out
 
     runner.hyp_run(st.tuples(sqlgen.stmt(depth), st.integers(0, 200)), body, res,
                    seed=runner.derive_seed(ctx.seed, "C02rand", shard, depth), max_examples=n, ctx=ctx)
     return res
+
+
+def reuse_aliases(stmt):
+    """C08's per-block alias reuse applied to a C02 case; None when nothing changes or when the rewritten statement falls under K-alias-reuse@C08
+    (an ambiguity of kind 'other', already mis-resolved on the pinned tree)"""
+    from vlib.props import C08
+
+    s2 = C08.rename_per_scope(stmt, True)
+    if s2 == stmt or "other" in C08.alias_ambiguities(s2):
+        return None
+    return s2
 
 
 # ------------------------------------------------------------------------------------------ skeleton enumeration
@@ -436,6 +452,11 @@ def _skeleton_worker(payload):
         pick = ["ansi", dl[(idx + ctx.seed) % len(dl)]] if ctx.quick else ["ansi"] + [dl[(idx + j) % len(dl)] for j in range(5)]
         for dialect in dict.fromkeys(pick):
             v = judge(stmt, feats, dialect, res, ctx, "skeleton")
+            if v is not None and len(res.violations) < 4:
+                res.violation(v["kind"], v["case"], v["detail"])
+        s2 = reuse_aliases(stmt) if ("nest=0" not in feats or "setop_arity=1" not in feats) else None
+        if s2 is not None:
+            v = judge(s2, feats + ["aliases_reused_per_block"], "ansi", res, ctx, "skeleton")
             if v is not None and len(res.violations) < 4:
                 res.violation(v["kind"], v["case"], v["detail"])
     return res
